@@ -10,7 +10,7 @@ The Cython variants (get_gev_vector.pyx, c_eig.pyx) are not built on this image 
 """
 from ..model import AnalysisError
 from ..terms import T, walk_terms
-from ..walk import data_derives, ret_alts, call_parts, call_arg, is_call_to, const_val, NOVAL, strip_views, unwrap_gamma, is_conj, same_value, as_norm, struct_eq, gamma_paths, selected_options
+from ..walk import dead_leaf, data_derives, ret_alts, call_parts, call_arg, is_call_to, const_val, NOVAL, strip_views, unwrap_gamma, is_conj, same_value, as_norm, struct_eq, gamma_paths, selected_options
 from .. import ein, sel
 
 B = 'pb_bss.extraction.beamformer::'
@@ -93,7 +93,7 @@ def check_pca(run, A):
         n_scaled = 0
         for ret in rets:
             vec, scale = ret.args[1], ret.args[2]
-            alts = [strip_views(x) for x in unwrap_gamma(scale) if x.op != 'raise']
+            alts = [strip_views(x) for x in unwrap_gamma(scale) if not dead_leaf(x)]
             for x in alts:
                 if const_val(x) == 1:
                     continue
@@ -112,7 +112,7 @@ def check_pca(run, A):
                         # the gain may be selected before one shared division by the norm
                         for num in unwrap_gamma(b.args[1]):
                             num = strip_views(num)
-                            if num.op == 'raise':
+                            if dead_leaf(num):
                                 continue
                             n_scaled += 1
                             if is_call_to(num, 'numpy.sqrt'):
